@@ -155,6 +155,10 @@ theorem step_outer (k k' : List K) (s s' : State) (h : step k s = some (k', s'))
         · simp only [Prod.mk.injEq] at h; rw [← h.1, ← h.2]; exact Adv.refl _
         · simp only [Prod.mk.injEq] at h; rw [← h.1, ← h.2]
           exact outerDesc_mono _ _ _ (execSimple_adv _ _ _)
+      | async c =>
+        simp only [step] at h
+        split at h <;> (simp only [Option.some.injEq, Prod.mk.injEq] at h; rw [← h.1, ← h.2]) <;>
+          exact Adv.refl _
       | redir rs c =>
         simp only [step] at h
         split at h
@@ -231,6 +235,7 @@ theorem runK_outer (n : Nat) (k : List K) (s : State) (hfin : (runK n k s).2 = t
           | cmd c =>
             cases c with
             | redir rs c => simp only [step] at hst; split at hst <;> (try split at hst) <;> simp at hst
+            | async c => simp only [step] at hst; split at hst <;> simp at hst
             | simple ws here => simp [step] at hst
             | ifc c t e he => simp [step] at hst
             | loop u c b => simp [step] at hst
